@@ -1,6 +1,7 @@
 package main
 
 import (
+	"fmt"
 	"strings"
 
 	"verif/internal/harness"
@@ -302,6 +303,99 @@ func (c *checker) spaceD() {
 					c.doc(docCase{desc: desc, body: sk.build(b, mid), st: styles[0], fr: frames[0], nontrivial: true})
 				}
 			}
+		}
+	}
+}
+
+// spaceT: tables with row/column spans, including inconsistent layouts browsers accept (a row pushed to the
+// right by rowspans from above beyond every row's own colspan sum, staggered rowspans, a rowspan reaching past
+// the last row). Every cell token must come back exactly once, in order, in Text, Markdown and Document.
+// rows <= 3; quick: <= 2 cells per row and <= 2 spanned cells per table; thorough: the full product for <= 2 cells
+// per row, and <= 3 cells per row with <= 2 spanned cells.
+func (c *checker) spaceT() {
+	type span struct{ rs, cs int }
+	spans := []span{{1, 1}, {2, 1}, {1, 2}, {2, 2}, {3, 1}}
+	thorough := c.e.Thorough()
+	seen := uniq{}
+	emit := func(layout [][]span, hdr string) {
+		var parts []string
+		for _, r := range layout {
+			var cs []string
+			for _, s := range r {
+				cs = append(cs, fmt.Sprintf("%dx%d", s.rs, s.cs))
+			}
+			parts = append(parts, strings.Join(cs, ","))
+		}
+		desc := harness.D("space", "T", "hdr", hdr, "rows", strings.Join(parts, "/"))
+		if !seen.first(desc) {
+			return
+		}
+		b := &builder{}
+		t := el("table")
+		var body *node
+		for i, r := range layout {
+			tr := el("tr")
+			for _, s := range r {
+				tag, sect := "td", "tbody"
+				if hdr == "thead" && i == 0 {
+					tag, sect = "th", "thead"
+				}
+				tr.add(cell(b, tag, sect, s.rs, s.cs))
+			}
+			switch {
+			case hdr == "thead" && i == 0:
+				t.add(el("thead", tr))
+			case hdr == "thead":
+				if body == nil {
+					body = el("tbody")
+					t.add(body)
+				}
+				body.add(tr)
+			default:
+				t.add(tr)
+			}
+		}
+		doc := el("body", b.leaf("p", "p"), markTable(t), b.leaf("p", "p"))
+		c.doc(docCase{desc: desc, body: doc, st: styles[0], fr: frames[0], nontrivial: true})
+	}
+	var gen func(layout [][]span, rows, maxCells, devLeft int)
+	gen = func(layout [][]span, rows, maxCells, devLeft int) {
+		if len(layout) == rows {
+			for _, hdr := range []string{"none", "thead"} {
+				if hdr == "thead" && rows < 2 {
+					continue
+				}
+				emit(layout, hdr)
+			}
+			return
+		}
+		for n := 1; n <= maxCells; n++ {
+			var row func(cur []span, dev int)
+			row = func(cur []span, dev int) {
+				if len(cur) == n {
+					gen(append(layout[:len(layout):len(layout)], append([]span{}, cur...)), rows, maxCells, dev)
+					return
+				}
+				for si, s := range spans {
+					if si > 0 && dev == 0 {
+						break
+					}
+					d := dev
+					if si > 0 && d > 0 {
+						d--
+					}
+					row(append(cur, s), d)
+				}
+			}
+			row(nil, devLeft)
+		}
+	}
+	for rows := 2; rows <= 3; rows++ {
+		if thorough {
+			gen(nil, rows, 2, -1) // full product (negative budget never reaches 0)
+			gen(nil, rows, 3, 2)
+		} else {
+			gen(nil, rows, 2, 2)
 		}
 	}
 }
